@@ -1428,3 +1428,299 @@ Proof.
   - split; [lia|reflexivity].
   - split; [|lia]. destruct (f_type sp) as [[]|]; discriminate.
 Qed.
+
+(* ------------------------------------------------------------------ *)
+(* designs: registers, several domains, comb process                     *)
+
+Lemma render_b_false sigs env f : forall acc, render_b false sigs env f acc = render sigs env f acc.
+Proof.
+  induction f as [|[t|e s] f IH]; intros acc; cbn [render_b render]; auto.
+  destruct (field_spec sigs e s); [|reflexivity]. cbn [andb].
+  destruct (emit_field _ _ _); auto.
+Qed.
+
+Lemma exec_b_false sigs env p : forall out, exec_b false sigs env p out = exec sigs env p out.
+Proof.
+  assert (He : forall f, emit_format_b false sigs env f = emit_format sigs env f).
+  { intros f. unfold emit_format_b, emit_format. rewrite render_b_false. reflexivity. }
+  induction p as [|a IHa b IHb|f|k t m|c t IHt e IHe]; intros out; cbn [exec_b exec].
+  - reflexivity.
+  - rewrite IHa. destruct (exec sigs env a out); auto.
+  - unfold fire_print_b, fire_print. rewrite He. reflexivity.
+  - unfold fire_prop_b, fire_prop. destruct k, m as [f|]; rewrite ?He; reflexivity.
+  - destruct (eval_cond sigs env c); auto.
+Qed.
+
+(* without a brace-filled field nothing distinguishes the finding's semantics *)
+Definition conv_step (s : step) : tstep :=
+  match s with StSet i v => TSet i v | StClk b => TClk 0 b | StRst b => TRst 0 b end.
+
+Definition single (sigs : list shape) (pos rst : bool) (p : prog) : design :=
+  Design sigs [Dom pos rst false p] PSkip [].
+
+Lemma run_dsteps_single f7 sigs pos rst p steps : forall env clk r idx out,
+  run_dsteps f7 false (single sigs pos rst p) (map conv_step steps) (DS env [clk] [r]) idx out =
+  run_steps sigs pos p steps env clk idx out.
+Proof.
+  induction steps as [|st steps IH]; intros env clk r idx out; cbn [map run_dsteps run_steps]; [reflexivity|].
+  destruct st as [i v|b|b]; cbn [conv_step dstep_run s_env s_clk s_rst].
+  - unfold after_change. cbn [single ds_comb prog_sigs changed existsb ds_sigs]. apply IH.
+  - unfold dom_of. cbn [single ds_doms nth d_pos set_nthb].
+    destruct (is_edge pos clk b) eqn:E.
+    + unfold proc_run, dom_of. cbn [single ds_doms nth d_prog ds_sigs ds_regs update_regs].
+      rewrite exec_b_false. destruct (exec sigs env p out) as [o|o c m].
+      * unfold after_change. cbn [ds_comb prog_sigs changed existsb]. apply IH.
+      * reflexivity.
+    + apply IH.
+  - unfold dom_of. cbn [single ds_doms nth d_async andb set_nthb]. apply IH.
+Qed.
+
+Lemma run_design_single f7 sigs pos rst p steps :
+  run_design f7 false (single sigs pos rst p) (map conv_step steps) =
+  run_steps sigs pos p steps (init_env sigs) false 0 [].
+Proof.
+  unfold run_design, design_init. cbn [single ds_regs init_regs ds_sigs ds_doms map ds_comb exec_b s_env].
+  apply run_dsteps_single.
+Qed.
+
+(* steps at which nothing can be emitted (documented semantics, f7 = false) *)
+Definition quiet_step (D : design) (t : tstep) (st : dstate) : bool :=
+  match t with
+  | TSet i v => negb (changed (prog_sigs (ds_comb D)) (s_env st)
+                        (set_nth i (norm (sig_shape (ds_sigs D) i) v) (s_env st)))
+  | TClk d b => negb (is_edge (d_pos (dom_of D d)) (nth d (s_clk st) false) b)
+  | TRst d b => negb (d_async (dom_of D d) && b && negb (nth d (s_rst st) false))
+                || negb (changed (prog_sigs (ds_comb D)) (s_env st) (reset_regs d (ds_regs D) (s_env st)))
+  end.
+
+Lemma quiet_step_silent bf D t st out : quiet_step D t st = true ->
+  fst (dstep_run false bf D t st out) = Cont out.
+Proof.
+  destruct t as [i v|d b|d b]; cbn [quiet_step dstep_run]; intros H.
+  - cbn [fst]. unfold after_change. apply negb_true_iff in H. rewrite H. reflexivity.
+  - apply negb_true_iff in H. rewrite H. reflexivity.
+  - destruct (d_async (dom_of D d) && b && negb (nth d (s_rst st) false)) eqn:E; [|reflexivity].
+    cbn [negb orb] in H. cbn [fst]. unfold after_change. apply negb_true_iff in H. rewrite H. reflexivity.
+Qed.
+
+(* an active edge: the statements see the values before the edge; the registers then step from those same values *)
+Lemma edge_step_spec f7 bf D d b st out :
+  is_edge (d_pos (dom_of D d)) (nth d (s_clk st) false) b = true ->
+  dstep_run f7 bf D (TClk d b) st out =
+  match exec_b bf (ds_sigs D) (s_env st) (d_prog (dom_of D d)) out with
+  | Cont out' =>
+      let env' := update_regs (ds_sigs D) (s_env st) (nth d (s_rst st) false) d (ds_regs D) (s_env st) in
+      (after_change bf D (s_env st) env' out', DS env' (set_nthb d b (s_clk st)) (s_rst st))
+  | s => (s, DS (s_env st) (set_nthb d b (s_clk st)) (s_rst st))
+  end.
+Proof.
+  intros H. cbn [dstep_run]. rewrite H. unfold proc_run.
+  destruct (exec_b bf (ds_sigs D) (s_env st) (d_prog (dom_of D d)) out); reflexivity.
+Qed.
+
+(* a change of the reset never emits when no comb statement exists (documented semantics) *)
+Lemma reset_step_silent bf D d b st out : ds_comb D = PSkip ->
+  fst (dstep_run false bf D (TRst d b) st out) = Cont out.
+Proof.
+  intros Hc. cbn [dstep_run].
+  destruct (d_async (dom_of D d) && b && negb (nth d (s_rst st) false)); [|reflexivity].
+  cbn [fst]. unfold after_change. rewrite Hc. cbn. reflexivity.
+Qed.
+
+(* ------------------------------------------------------------------ *)
+(* completeness of the recogniser: every string of the grammar is accepted, with the record it was rendered from *)
+
+Definition is_type_char (c : Z) : bool :=
+  (c =? 98) || (c =? 111) || (c =? 100) || (c =? 120) || (c =? 88) || (c =? 99) || (c =? 115).
+Definition cls6 (c : Z) : bool := is_type_char c || (c =? 95).
+Definition cls5 (c : Z) : bool := cls6 c || ((48 <=? c) && (c <=? 57)).
+Definition cls3 (c : Z) : bool := cls5 c || (c =? 35).
+Definition cls2 (c : Z) : bool := cls3 c || (c =? 45) || (c =? 43) || (c =? 32).
+
+Definition head_ok (P : Z -> bool) (s : list Z) : bool := match s with [] => true | c :: _ => P c end.
+
+Lemma head_ok_forall (P Q : Z -> bool) s : (forall c, Q c = true -> P c = true) ->
+  Forall (fun c => Q c = true) s -> head_ok P s = true.
+Proof. intros H Hs. destruct Hs; cbn; auto. Qed.
+
+Lemma eat_flag k (b : bool) rest : (b = false -> head_ok (fun c => negb (k =? c)) rest = true) ->
+  eat (Z.eqb k) (flag b k ++ rest) = (b, rest).
+Proof.
+  intros H. destruct b; cbn [flag app eat].
+  - rewrite Z.eqb_refl. reflexivity.
+  - specialize (H eq_refl). destruct rest as [|c r]; [reflexivity|]. cbn in H. cbn [eat].
+    destruct (k =? c); [discriminate|reflexivity].
+Qed.
+
+Lemma eat_digits_app r : forall acc w rest, Forall (fun d => 48 <= d <= 57) r ->
+  head_ok (fun c => negb (is_digit c)) rest = true ->
+  eat_digits r acc = (w, []) -> eat_digits (r ++ rest) acc = (w, rest).
+Proof.
+  induction r as [|c r IH]; intros acc w rest Hr Hh He.
+  - cbn in He. injection He as <-. cbn [app]. destruct rest as [|x t]; [reflexivity|].
+    cbn in Hh. cbn [eat_digits]. destruct (is_digit x); [discriminate|reflexivity].
+  - inversion Hr; subst. cbn [app eat_digits] in *.
+    assert (is_digit c = true) as -> by (unfold is_digit; lia). rewrite H2 in He || idtac.
+    assert (Hd : is_digit c = true) by (unfold is_digit; lia). rewrite Hd in He. apply IH; auto.
+Qed.
+
+Lemma type_tail_forall ty : Forall (fun c => is_type_char c = true) (opt_char (option_map type_char ty)).
+Proof. destruct ty as [[]|]; cbn; repeat constructor. Qed.
+
+Lemma parse_raw_complete sp wd :
+  (f_fill sp <> None -> f_align sp <> None /\ f_fill sp <> Some 10) ->
+  (f_fill sp = None \/ f_align sp <> None) ->
+  width_digits (f_width sp) wd ->
+  parse_raw (render_spec sp wd) = Some sp.
+Proof.
+  destruct sp as [fill al sg alt zero w grp ty]. cbn [f_fill f_align f_width]. intros Hfill _ Hwd.
+  unfold render_spec. cbn [f_fill f_align f_sign f_alt f_zero f_width f_group f_type].
+  set (T7 := opt_char (option_map type_char ty)).
+  set (T6 := flag grp 95 ++ T7). set (T5 := wd ++ T6). set (T4 := flag zero 48 ++ T5).
+  set (T3 := flag alt 35 ++ T4). set (T2 := opt_char (option_map sign_char sg) ++ T3).
+  assert (F7 : Forall (fun c => is_type_char c = true) T7) by apply type_tail_forall.
+  assert (F6 : Forall (fun c => cls6 c = true) T6).
+  { unfold T6. apply Forall_app. split.
+    - destruct grp; cbn; repeat constructor.
+    - eapply Forall_impl; [|exact F7]. cbn. intros c Hc. unfold cls6. rewrite Hc. reflexivity. }
+  assert (Hwdd : Forall (fun d => 48 <= d <= 57) wd).
+  { destruct wd as [|c r]; [constructor|]. cbn in Hwd. destruct Hwd as (Hc & Hr & _). constructor; [lia|exact Hr]. }
+  assert (F5 : Forall (fun c => cls5 c = true) T5).
+  { unfold T5. apply Forall_app. split.
+    - eapply Forall_impl; [|exact Hwdd]. cbn. intros c Hc. unfold cls5. lia.
+    - eapply Forall_impl; [|exact F6]. cbn. intros c Hc. unfold cls5. rewrite Hc. reflexivity. }
+  assert (F4 : Forall (fun c => cls5 c = true) T4).
+  { unfold T4. apply Forall_app. split; [destruct zero; cbn; repeat constructor|exact F5]. }
+  assert (F3 : Forall (fun c => cls3 c = true) T3).
+  { unfold T3. apply Forall_app. split; [destruct alt; cbn; repeat constructor|].
+    eapply Forall_impl; [|exact F4]. cbn. intros c Hc. unfold cls3. rewrite Hc. reflexivity. }
+  assert (F2 : Forall (fun c => cls2 c = true) T2).
+  { unfold T2. apply Forall_app. split; [destruct sg as [[]|]; cbn; repeat constructor|].
+    eapply Forall_impl; [|exact F3]. cbn. intros c Hc. unfold cls2. rewrite Hc. reflexivity. }
+  assert (NA : forall c, cls2 c = true -> is_align_char c = false).
+  { intros c. unfold cls2, cls3, cls5, cls6, is_type_char, is_align_char. lia. }
+  (* stage 1 *)
+  assert (S1 : parse_fill_align (opt_char fill ++ opt_char (option_map align_char al) ++ T2)
+               = (fill, option_map align_char al, T2)).
+  { assert (Hh : head_ok (fun c => negb (is_align_char c)) T2 = true).
+    { eapply head_ok_forall; [|exact F2]. intros c Hc. rewrite (NA c Hc). reflexivity. }
+    assert (Hh2 : match T2 with _ :: c2 :: _ => is_align_char c2 = false | _ => True end).
+    { destruct F2 as [|c0 t0 _ [|c1 t1 H1 _]]; auto. }
+    destruct fill as [c|], al as [a|]; cbn [opt_char option_map app].
+    - destruct (Hfill ltac:(discriminate)) as [_ Hn]. unfold parse_fill_align.
+      assert (is_align_char (align_char a) = true) as -> by (destruct a; reflexivity).
+      assert (c <> 10) by congruence. destruct (c =? 10) eqn:E; [lia|]. reflexivity.
+    - destruct (Hfill ltac:(discriminate)) as [Hc _]. congruence.
+    - unfold parse_fill_align. assert (Ha : is_align_char (align_char a) = true) by (destruct a; reflexivity).
+      destruct T2 as [|x r]; [rewrite Ha; reflexivity|]. cbn in Hh.
+      destruct (is_align_char x); [discriminate|]. cbn [andb]. rewrite Ha. reflexivity.
+    - unfold parse_fill_align. destruct T2 as [|x [|y r]]; [reflexivity| |].
+      + cbn in Hh. destruct (is_align_char x); [discriminate|reflexivity].
+      + cbn in Hh. rewrite Hh2. cbn [andb]. destruct (is_align_char x); [discriminate|reflexivity]. }
+  unfold parse_raw. rewrite S1.
+  assert (Hal : match option_map align_char al with Some a => align_of a | None => None end = al)
+    by (destruct al as [[]|]; reflexivity).
+  rewrite Hal.
+  assert (Hbad : match option_map align_char al, al with Some _, None => true | _, _ => false end = false)
+    by (destruct al; reflexivity).
+  rewrite Hbad.
+  (* stage 2: sign *)
+  assert (S2 : (match T2 with c :: _ => sign_of c | [] => None end) = sg /\
+               (match (match T2 with c :: _ => sign_of c | [] => None end), T2 with Some _, _ :: r => r | _, _ => T2 end) = T3).
+  { unfold T2. destruct sg as [[]|]; cbn [option_map opt_char app sign_char]; try (split; reflexivity).
+    assert (Hh : head_ok (fun c => match sign_of c with None => true | Some _ => false end) T3 = true).
+    { eapply head_ok_forall; [|exact F3]. intros c. unfold cls3, cls5, cls6, is_type_char, sign_of.
+      intros Hc. destruct (c =? 45) eqn:E1; [lia|]. destruct (c =? 43) eqn:E2; [lia|]. destruct (c =? 32) eqn:E3; [lia|reflexivity]. }
+    destruct T3 as [|x r]; [split; reflexivity|]. cbn in Hh. destruct (sign_of x); [discriminate|split; reflexivity]. }
+  destruct S2 as [S2a S2b]. rewrite S2b, S2a.
+  (* stages 3, 4 *)
+  unfold T3. rewrite eat_flag.
+  2:{ intros _. eapply head_ok_forall; [|exact F4]. intros c. unfold cls5, cls6, is_type_char. lia. }
+  unfold T4. rewrite eat_flag.
+  2:{ intros _. unfold T5. destruct wd as [|c r].
+      - cbn [app]. eapply head_ok_forall; [|exact F6]. intros c. unfold cls6, is_type_char. lia.
+      - cbn [width_digits] in Hwd. destruct Hwd as (Hc & _). cbn [app head_ok]. lia. }
+  (* stage 5: width *)
+  assert (S5 : eat_width T5 = (w, T6)).
+  { unfold T5. assert (Hh : head_ok (fun c => negb (is_digit c)) T6 = true).
+    { eapply head_ok_forall; [|exact F6]. intros c. unfold cls6, is_type_char, is_digit. lia. }
+    destruct wd as [|c r].
+    - cbn in Hwd. subst w. cbn [app]. unfold eat_width. destruct T6 as [|x t]; [reflexivity|].
+      cbn in Hh. unfold is_digit in Hh. destruct ((49 <=? x) && (x <=? 57)) eqn:E; [lia|reflexivity].
+    - cbn in Hwd. destruct Hwd as (Hc & Hr & He). cbn [app]. unfold eat_width.
+      destruct ((49 <=? c) && (c <=? 57)) eqn:E; [|lia]. apply eat_digits_app; auto. }
+  rewrite S5. unfold T6. rewrite eat_flag.
+  2:{ intros _. eapply head_ok_forall; [|exact F7]. intros c. unfold is_type_char. lia. }
+  unfold T7. destruct ty as [[]|]; reflexivity.
+Qed.
+
+(* ------------------------------------------------------------------ *)
+(* the lowering of If/Elif/Else and Switch/Case to the priority chain preserves the DSL meaning *)
+
+Lemma land_step m t (x : bool) :
+  Z.land (2 * m + Z.b2z x) t = 2 * Z.land m (Z.div2 t) + Z.b2z (x && Z.odd t).
+Proof.
+  apply Z.bits_inj'. intros n Hn. rewrite Z.land_spec.
+  rewrite (Z.div2_odd t) at 1.
+  destruct (Z.eq_dec n 0) as [->|Hn0].
+  - rewrite !Z.testbit_0_r. reflexivity.
+  - replace n with (Z.succ (n - 1)) by lia. rewrite !Z.testbit_succ_r by lia. rewrite Z.land_spec. reflexivity.
+Qed.
+
+Definition pstep (c : Z) (mv : Z * Z) : Z * Z :=
+  (2 * fst mv + (if c =? 45 then 0 else 1), 2 * snd mv + (if c =? 49 then 1 else 0)).
+
+Lemma pat_mv_rev p : pat_mv p = fold_right pstep (0, 0) (rev p).
+Proof. unfold pat_mv. symmetry. exact (fold_left_rev_right pstep p (0, 0)). Qed.
+
+Lemma pat_lsb_spec l : forall test,
+  (snd (fold_right pstep (0, 0) l) =? Z.land (fst (fold_right pstep (0, 0) l)) test) = pat_matches_lsb l test.
+Proof.
+  induction l as [|c r IH]; intros test; cbn [fold_right pat_matches_lsb].
+  - cbn. reflexivity.
+  - set (mv := fold_right pstep (0, 0) r) in *. unfold pstep at 1 2. cbn [fst snd].
+    specialize (IH (Z.div2 test)).
+    replace (if c =? 45 then 0 else 1) with (Z.b2z (negb (c =? 45))) by (destruct (c =? 45); reflexivity).
+    rewrite land_step. rewrite <- IH.
+    destruct (c =? 45) eqn:E45.
+    + assert (c =? 49 = false) as -> by lia. cbn [negb andb Z.b2z]. lia.
+    + cbn [negb andb]. destruct (c =? 49), (Z.odd test); cbn [Z.b2z Bool.eqb]; lia.
+Qed.
+
+Lemma pat_mv_spec p test :
+  (snd (pat_mv p) =? Z.land (fst (pat_mv p)) test) = pat_matches p test.
+Proof. rewrite pat_mv_rev. apply pat_lsb_spec. Qed.
+
+Lemma existsb_pats ps test :
+  existsb (fun mv => snd mv =? Z.land (fst mv) test) (map pat_mv ps) = existsb (fun p => pat_matches p test) ps.
+Proof. induction ps as [|p ps IH]; cbn [map existsb]; [reflexivity|]. rewrite pat_mv_spec, IH. reflexivity. Qed.
+
+Scheme dstmt_mind := Induction for dstmt Sort Prop
+  with dprog_mind := Induction for dprog Sort Prop
+  with darms_mind := Induction for darms Sort Prop
+  with dcases_mind := Induction for dcases Sort Prop.
+Combined Scheme dsl_mutind from dstmt_mind, dprog_mind, darms_mind, dcases_mind.
+
+Lemma lower_correct sigs env :
+  (forall s out, exec sigs env (lower_stmt s) out = dexec_stmt sigs env s out) /\
+  (forall p out, exec sigs env (lower_prog p) out = dexec_prog sigs env p out) /\
+  (forall a els out, exec sigs env (lower_arms a els) out = dexec_arms sigs env a out (exec sigs env els out)) /\
+  (forall cs i out, exec sigs env (lower_cases i cs) out = dexec_cases sigs env i cs out).
+Proof.
+  apply dsl_mutind.
+  - intros f out. reflexivity.
+  - intros k t m out. reflexivity.
+  - intros arms IHa els IHe out. cbn [lower_stmt dexec_stmt]. rewrite IHa, IHe. reflexivity.
+  - intros i cs IHc out. cbn [lower_stmt dexec_stmt]. apply IHc.
+  - intros out. reflexivity.
+  - intros s IHs r IHr out. cbn [lower_prog dexec_prog exec]. rewrite IHs.
+    destruct (dexec_stmt sigs env s out); [apply IHr|reflexivity].
+  - intros els out. reflexivity.
+  - intros i b IHb r IHr els out. cbn [lower_arms dexec_arms exec eval_cond]. fold (sig_test sigs env i).
+    destruct (negb (sig_test sigs env i =? 0)); [apply IHb|apply IHr].
+  - intros i out. reflexivity.
+  - intros pats b IHb r IHr i out. cbn [lower_cases dexec_cases exec eval_cond]. fold (sig_test sigs env i).
+    destruct pats as [ps|].
+    + rewrite existsb_pats. destruct (existsb _ ps); [apply IHb|apply IHr].
+    + cbn [existsb fst snd]. rewrite Z.land_0_l. cbn [Z.eqb orb]. apply IHb.
+Qed.
